@@ -384,7 +384,6 @@ def serialise(p):
         "nodes": nodes, "slots": slots, "fields": fields, "impKeys": imp_keys,
         "counts": [len(C), len(S), len(M), len(T), len(U)],
         "surfKind": [surf_kind(s) for s in S], "nconst": [len(s._surface_constants) for s in S],
-        "fillParens": [any(getattr(n, "value", None) == "(" for n in c._fill._tree["data"]) for c in C],
         "probes": q, "wprobes": w,
     }
 
@@ -415,13 +414,17 @@ def _blank(vals):
     return vals
 
 
-def tr_norm(entries):
+IDENTITY = [Fraction(x) for x in (1, 0, 0, 0, 1, 0, 0, 0, 1)]
+IDENTITY_DEG = [Fraction(x) for x in (0, 90, 90, 90, 0, 90, 90, 90, 0)]
+
+
+def tr_norm(entries, star=False):
     """TR card entries with MCNP's defaults made explicit: (displacement, rotation or identity, m)"""
     e = list(entries)
     disp, rot, m = e[:3], e[3:12], e[12:13]
     if not rot:
         rot = "identity"
-    elif len(rot) == 9 and rot == [Fraction(x) for x in (1, 0, 0, 0, 1, 0, 0, 0, 1)]:
+    elif len(rot) == 9 and rot == (IDENTITY_DEG if star else IDENTITY):
         rot = "identity"
     return [disp, rot, m[0] if m else Fraction(1)]
 
@@ -475,9 +478,9 @@ def table(den):
             key += f"#{seen[key]}"
         ent = [_num(v) for v in d["entries"]]
         if key == "mode":
-            ent = sorted(ent)
+            ent = sorted(ent, key=str)
         if key.startswith("tr") and key[2:].isdigit():
-            ent = tr_norm(ent) + [star]
+            ent = tr_norm(ent, star) + [star]
         t[("data", key)] = ent
     t[("meta", "mode-card")] = ("data", "mode") in t
     t.setdefault(("data", "mode"), ["n"])  # MCNP's default
@@ -551,7 +554,7 @@ def _geom_renumber(words, old, new, cells):
 
 def _tr_entry(A, k):
     rot = A["rot"][k]
-    rot_n = "identity" if (not rot or rot == [Fraction(x) for x in (1, 0, 0, 0, 1, 0, 0, 0, 1)]) else list(rot)
+    rot_n = "identity" if (not rot or rot == (IDENTITY_DEG if A["deg"][k] else IDENTITY)) else list(rot)
     return [list(A["disp"][k]), rot_n, Fraction(1 if A["m2a"][k] else -1), A["deg"][k]]
 
 
